@@ -620,6 +620,39 @@ func (nm *NodeMachine) PendingTimerFor(height int64) bool {
 	return false
 }
 
+// TimerConflictsWithPool: would the timer transaction of the given height (computed, as packBlock
+// does, over the live state incl. pending transactions) read or write a key that a pending
+// transaction reads or writes? (second trigger shape of finding C13-timer-tx-sees-pending-task)
+func (nm *NodeMachine) TimerConflictsWithPool(height int64) bool {
+	if len(nm.Pool) == 0 {
+		return false
+	}
+	auto, err := nm.N.State.GetTimerTx(height)
+	if err != nil || auto == nil || len(auto.TxOutputsExt) == 0 {
+		return false
+	}
+	keys := map[string]bool{}
+	for _, i := range auto.TxInputsExt {
+		keys[RawKey(i.Bucket, string(i.Key))] = true
+	}
+	for _, o := range auto.TxOutputsExt {
+		keys[RawKey(o.Bucket, string(o.Key))] = true
+	}
+	for _, tx := range nm.Pool {
+		for _, i := range tx.TxInputsExt {
+			if keys[RawKey(i.Bucket, string(i.Key))] {
+				return true
+			}
+		}
+		for _, o := range tx.TxOutputsExt {
+			if keys[RawKey(o.Bucket, string(o.Key))] {
+				return true
+			}
+		}
+	}
+	return false
+}
+
 // orderApplies: do the transactions apply validly on base in exactly this order?
 func orderApplies(base *MState, txs []*pb.Transaction, h int64) error {
 	s := base.Clone()
